@@ -13,6 +13,7 @@ CONSTANTS Keys = {"k0", "k1"}
           MaxSeq = 1
           MaxOps = 2
           MaxRounds = 0
+          TrackW0 = FALSE
           UseRun = TRUE
           Timely = FALSE
           Devs = {}
